@@ -98,16 +98,21 @@ impl Default for RunOptions {
 
 /// Batch run through the real `FileExecutor`. `Err` = panic message.
 pub fn run_batch(tables: &Tables, statement: &Statement, files: &[PathBuf], options: RunOptions) -> Result<RunOut, String> {
-    catch(|| {
-        let mut handles = Vec::new();
-        for f in files {
-            match File::open(f) {
-                Ok(h) => handles.push(h),
-                Err(e) => {
-                    return RunOut { lines: Vec::new(), result: Err(format!("open {}: {}", f.display(), e)), total_lines: 0 };
-                }
+    let mut handles = Vec::new();
+    for f in files {
+        match File::open(f) {
+            Ok(h) => handles.push(h),
+            Err(e) => {
+                return Ok(RunOut { lines: Vec::new(), result: Err(format!("open {}: {}", f.display(), e)), total_lines: 0 });
             }
         }
+    }
+    run_batch_handles(tables, statement, handles, options)
+}
+
+/// As `run_batch`, over handles that are already open (regular files, or the read side of a named pipe).
+pub fn run_batch_handles(tables: &Tables, statement: &Statement, handles: Vec<File>, options: RunOptions) -> Result<RunOut, String> {
+    catch(|| {
         let engine = ExecutionEngine::new(tables, statement);
         let display = DisplayOptions { output_format: options.format.clone(), single_result: options.single_result, print_result: options.print_result };
         let printer = CapPrinter { lines: Vec::new(), stop_after: options.stop_after_lines, running: options.running.clone() };
@@ -116,6 +121,41 @@ pub fn run_batch(tables: &Tables, statement: &Statement, files: &[PathBuf], opti
         let lines = executor.output_printer().printer().lines.clone();
         RunOut { lines, result, total_lines: executor.statistics().total_lines }
     })
+}
+
+/// As `run_query`, but the file at index `piped` reaches the executor through a named pipe (what `--stdin` fed by a
+/// pipe, a FIFO or a process substitution amounts to: a handle without a size, that cannot be repositioned); the
+/// other files are regular files. A writer thread feeds the pipe; a reader that stops early (error) just ends it.
+pub fn run_query_piped(ctx: &Ctx, defs: &str, query: &str, contents: &[Vec<u8>], piped: usize) -> Result<RunOut, String> {
+    let tables = build_tables(defs)?;
+    let statement = parse_statement(query)?;
+    let files = scratch_files(ctx, "in", contents);
+    let fifo = ctx.file("in-pipe.fifo");
+    let _ = std::fs::remove_file(&fifo);
+    let cpath = std::ffi::CString::new(fifo.to_string_lossy().as_bytes()).map_err(|e| format!("harness: fifo path: {}", e))?;
+    if unsafe { libc::mkfifo(cpath.as_ptr(), 0o600) } != 0 {
+        return Err(format!("harness: mkfifo {}: {}", fifo.display(), std::io::Error::last_os_error()));
+    }
+    // a reader that ends early must end the writer with an error, not the process with a signal (libFuzzer's main
+    // does not ignore SIGPIPE the way a Rust main does)
+    unsafe { libc::signal(libc::SIGPIPE, libc::SIG_IGN) };
+    let data = contents[piped].clone();
+    let wpath = fifo.clone();
+    let writer = std::thread::spawn(move || {
+        use std::io::Write;
+        if let Ok(mut w) = std::fs::OpenOptions::new().write(true).open(&wpath) {
+            let _ = w.write_all(&data);
+        }
+    });
+    let mut handles = Vec::new();
+    for (i, f) in files.iter().enumerate() {
+        let h = if i == piped { File::open(&fifo) } else { File::open(f) };
+        handles.push(h.map_err(|e| format!("harness: open input {}: {}", i, e))?);
+    }
+    let out = run_batch_handles(&tables, &statement, handles, RunOptions::default());
+    let _ = writer.join();
+    let _ = std::fs::remove_file(&fifo);
+    out
 }
 
 /// Convenience: definitions text + query text + file contents, JSON format.
